@@ -25,7 +25,10 @@ impl ThickSegment {
 
     /// Check whether the thick segment is thick or not.
     pub fn is_skeleton(&self) -> bool {
-        self.start_join.first_edge_end.left == self.start_join.first_edge_end.right
+        // Both ends of this segment must be collapsed. The corners of a single join can coincide
+        // for thicker lines too, e.g. in a rounded miter join between two lines of width 2.
+        self.start_join.second_edge_start.left == self.start_join.second_edge_start.right
+            && self.end_join.first_edge_end.left == self.end_join.first_edge_end.right
     }
 
     /// Get the right/left edges of this line segment.
